@@ -398,38 +398,33 @@ def run_enum_arm(pid, arm, bins, tier, seed, res):
         tp = os.path.join(base, 'cell-' + '-'.join(map(str, cell)) + '.tape')
         write_tape(tp, list(en.get('prefix', [])) + list(cell))
         tapes.append(tp)
-    nproc = 16
-    chunks = [tapes[i::nproc] for i in range(nproc)]
-    procs = []
-    for i, ch in enumerate(chunks):
-        if not ch:
-            continue
-        out = os.path.join(base, 's%d' % i)
-        os.makedirs(out)
+    # one process per cell: a crash in one cell cannot hide the cells after it
+    cands = []
+    done_cells = [0]
+    def run_cell(tp):
+        out = tp[:-5] + '.out'
+        os.makedirs(out, exist_ok=True)
         env = base_env(tier, arm.get('env'))
         env['VF_OUT'] = out
-        lf = open(os.path.join(out, 'log'), 'w')
-        procs.append((i, subprocess.Popen([exe, '--replay'] + ch, env=env, stdout=lf, stderr=subprocess.STDOUT, cwd=out), out, lf, ch))
-    cands = []
-    done_cells = 0
-    for i, p, out, lf, ch in procs:
         try:
-            rc = p.wait(timeout=en.get('timeout', 1200))
+            r = subprocess.run([exe, '--replay', tp], env=env, capture_output=True, text=True, errors='replace', timeout=en.get('timeout', 1200), cwd=out)
+            rc, txt = r.returncode, (r.stdout or '') + (r.stderr or '')
         except subprocess.TimeoutExpired:
-            p.kill(); p.wait(); rc = 'timeout'
-            res['inconclusive'].append('%s enumeration shard %d hit the wall-clock budget' % (arm['name'], i))
-        lf.close()
+            rc, txt = 'timeout', ''
+        with open(os.path.join(out, 'log'), 'w') as lf:
+            lf.write(txt)
+        return tp, out, rc, txt
+    with ThreadPoolExecutor(16) as ex:
+        results = list(ex.map(run_cell, tapes))
+    for tp, out, rc, txt in results:
         merge_stats(out, arm['name'] + '-enum', res)
-        txt = open(os.path.join(out, 'log'), errors='replace').read()
-        done_cells += len(re.findall(r'^REPLAY-(?:PASS|FAIL|DISCARD)', txt, re.M))
-        for m in re.finditer(r'^REPLAY-FAIL (\S+?):', txt, re.M):
-            cands.append((m.group(1), exe, False))
-        if rc not in (0, 1, 3, 'timeout'):
-            # crash: the cell being executed is the first one without a verdict line
-            seen = set(re.findall(r'^REPLAY-(?:PASS|FAIL|DISCARD) (\S+?):?$', txt, re.M)) | set(m.group(1) for m in re.finditer(r'^REPLAY-FAIL (\S+?):', txt, re.M))
-            for tp in ch:
-                if tp not in seen:
-                    cands.append((tp, exe, False)); break
+        if rc == 'timeout':
+            res['inconclusive'].append('%s enumeration cell %s hit the wall-clock budget' % (arm['name'], os.path.basename(tp)))
+            continue
+        done_cells[0] += 1
+        if rc not in (0, 3):
+            cands.append((tp, exe, False))
+    done_cells = done_cells[0]
     res['labels']['enumerated_cells'] = len(cells)
     res['labels']['enumerated_cells_done'] = done_cells
     if done_cells >= len(cells) and not cands:
